@@ -107,13 +107,21 @@ func (b *base) tryRS(c *mon.Case, label string, r, s *big.Int) {
 	judgeRS(c, label, b.in, r, s)
 }
 
+// candidate families; the thorough tier sweeps every content octet and splits
+// that sweep into four cases per integer to keep each case short
 var soundFamilies = []string{"framing", "der-edits", "body-r", "body-s", "values", "foreign", "random"}
+var soundFamiliesThorough = []string{"framing", "der-edits", "body-r/0", "body-r/1", "body-r/2", "body-r/3",
+	"body-s/0", "body-s/1", "body-s/2", "body-s/3", "values", "foreign", "random"}
 
 func sound(x *mon.Ctx) {
 	selfTest(x)
 	nb := x.Scale(72, 500)
+	fams := soundFamilies
+	if x.Thorough() {
+		fams = soundFamiliesThorough
+	}
 	for idx := 0; idx < nb; idx++ {
-		for _, fam := range soundFamilies {
+		for _, fam := range fams {
 			c := x.Begin("sound base=%d family=%s (base signature: key/uid/msg/k from NewRand(seed,\"c06.sound.base\",%d))", idx, fam, idx)
 			if c == nil {
 				continue
@@ -127,9 +135,13 @@ func sound(x *mon.Ctx) {
 				case "der-edits":
 					b.derEdits(c)
 				case "body-r":
-					b.body(c, "r", b.rOff, b.rLen, x.Thorough())
+					b.body(c, "r", b.rOff, b.rLen, -1)
 				case "body-s":
-					b.body(c, "s", b.sOff, b.sLen, x.Thorough())
+					b.body(c, "s", b.sOff, b.sLen, -1)
+				case "body-r/0", "body-r/1", "body-r/2", "body-r/3":
+					b.body(c, "r", b.rOff, b.rLen, int(fam[len(fam)-1]-'0'))
+				case "body-s/0", "body-s/1", "body-s/2", "body-s/3":
+					b.body(c, "s", b.sOff, b.sLen, int(fam[len(fam)-1]-'0'))
 				case "values":
 					b.values(c)
 				case "foreign":
@@ -287,11 +299,19 @@ var substitutions = []struct {
 
 // body: single-byte substitutions inside the content octets of r or s. The quick
 // tier samples six positions per base signature (every position and
-// substitution is met across the bases); the thorough tier takes them all.
-func (b *base) body(c *mon.Case, which string, off, l int, all bool) {
-	pos := c.R.Perm(l)
-	if !all && len(pos) > 6 {
-		pos = pos[:6]
+// substitution is met across the bases); the thorough tier takes them all, a
+// quarter of the positions per case.
+func (b *base) body(c *mon.Case, which string, off, l int, quarter int) {
+	var pos []int
+	if quarter < 0 {
+		pos = c.R.Perm(l)
+		if len(pos) > 6 {
+			pos = pos[:6]
+		}
+	} else {
+		for p := quarter; p < l; p += 4 {
+			pos = append(pos, p)
+		}
 	}
 	for _, p := range pos {
 		seen := map[byte]bool{b.sig[off+p]: true}
